@@ -186,3 +186,13 @@ PROPERTY_ASSUMPTIONS["C16"] = [
 ]
 M("C16", "c16_select_step", ["saito_core::core::consensus::blockchain_sync_state::BlockchainSyncState::get_blocks_to_fetch_per_peer"],
   "queues of 1..=3 entries (thorough 4): every status pattern (4^n), ids, retry counters (full u32) and batch size symbolic; ~14 clauses per path", covers=3)
+
+# ============================================================================== C19
+PROPERTY_ASSUMPTIONS["C19"] = [
+    "inductive steps from an arbitrary wallet satisfying Inv (balance = sum of the amounts of the slips listed as unspent; unspent and staking lists disjoint subsets of the slip map), 0..=3 slips, every unspent/staking layout enumerated (the layout is the shape of the containers; keys, amounts, block ids are symbolic)",
+    "all amounts together are within the total token supply (7e17), keys pairwise distinct and well-formed (re-parsing a wallet key succeeds); unspent slips are given in the order the function sorts them into (sort modelled as identity)",
+    "agreement with the ledger's spendable outputs, pending transactions, on_chain_reorganization (NFT handling) and window expiry are outside this revision's claim",
+]
+M("C19", "c19_add_delete_slip", ["Wallet::add_slip", "Wallet::delete_slip"], "wallets with 0..=2 slips in every layout; the slip added / deleted fully symbolic (possibly already present / absent)", covers=10)
+M("C19", "c19_find_slips_for_staking", ["Wallet::find_slips_for_staking", "WalletSlip::is_staking_slip_unlocked", "WalletSlip::to_slip"], "wallets with 1..=3 slips in every unspent/staking layout; staking amount, unlock heights symbolic; Ok and Err paths", covers=8)
+M("C19", "c19_generate_slips", ["Wallet::generate_slips"], "wallets with 1..=3 unspent slips; requested amount, latest block id, genesis period symbolic; conservation of inputs/change in u128", covers=3)
